@@ -8,6 +8,8 @@
    wf_<fmt> are boolean predicates on the bytes (Model/C07.v), written with the literal offsets of the formats. *)
 Require Import OV.Base.Bytes OV.Base.Py OV.Gen.Insp_Consts OV.Model.Insp_All OV.Model.C07.
 Require Import OV.Proofs.C07_Static OV.Proofs.C07_Vmdk OV.Proofs.C07_Vhdx.
+(* the translator-equivalence lemmas (Gen/C07_Code.v vs the hand-written model) are checked with this file *)
+Require OV.Proofs.C07_Equiv OV.Proofs.C07_Examples.
 Open Scope N_scope.
 
 (* ---------------- qcow2 ---------------- *)
